@@ -52,7 +52,7 @@ def fam_quantizers(fam, rnd):
           Qd("quantized_bits", bits=6, integer=2, symmetric=1))
 
 
-def export_model_spec(rnd, fam):
+def export_model_spec(rnd, fam, focus=None):
   nm = gm._Names()
   layers = []
 
@@ -64,9 +64,18 @@ def export_model_spec(rnd, fam):
   shape = {"img": [6, 6, 2], "vec": [5], "seq": [4, 3]}[mode]
   rank = len(shape) + 1
   spatial = shape[0]
-  for _ in range(rnd.randint(2, 5)):
+  if focus == "bn_fuse":
+    mode, shape, rank, spatial = "img", [6, 6, 2], 4, 6
+  for li in range(rnd.randint(2, 5)):
     wq, bq = fam_quantizers(fam, rnd)
     ub = bool(rnd.randint(0, 1))
+    forced = focus == "bn_fuse" and li == 0
+    if forced:
+      # a fusable conv / depthwise with a bias whose hardware form differs from its value (power of two,
+      # auto_po2) in front of a complete batch normalisation
+      ub = True
+      bq = rnd.choice([Qd("quantized_po2", bits=4), Qd("quantized_relu_po2", bits=4), Qd("quantized_po2", bits=5, max_value=2.0)] +
+                      ([Qd("quantized_bits", bits=6, integer=2, symmetric=1, alpha="auto_po2")] * 2 if fam == "auto_po2" else []))
     bq = bq if ub else None
     act = rnd.choice([None, Qd("quantized_relu", bits=4, integer=1), Qd("quantized_bits", bits=6, integer=2, symmetric=1, alpha=1.0)])
     if rank == 4:
@@ -74,6 +83,8 @@ def export_model_spec(rnd, fam):
       if not frozen:
         ops += ["fold", "dwfold", "sep", "gap"]
       t = rnd.choice(ops)
+      if forced:
+        t = rnd.choice(["conv_bn", "dw_bn"])
       if t in ("conv", "conv_bn"):
         add("QConv2D", "qconv", {"filters": rnd.randint(1, 3), "kernel_size": [rnd.randint(1, 2)] * 2, "padding": "same",
                                   "kernel_quantizer": wq, "bias_quantizer": bq, "use_bias": ub,
@@ -83,6 +94,8 @@ def export_model_spec(rnd, fam):
                                          "bias_quantizer": bq, "use_bias": ub, "activation": None if t == "dw_bn" else act})
       if t in ("conv_bn", "dw_bn", "bn"):
         kw = {"center": rnd.random() < 0.8, "scale": rnd.random() < 0.8}
+        if forced:
+          kw = {"center": True, "scale": True}
         r = rnd.random()
         if r < 0.4:
           kw.update(gamma_quantizer=Qd("quantized_relu_po2", bits=6, max_value=4), beta_quantizer=Qd("quantized_po2", bits=5, max_value=4),
@@ -155,6 +168,10 @@ def cases(tier, seed):
     rnd = random.Random(seed * 15485863 + i)
     fam = FAMILIES[i % len(FAMILIES)]
     out.append({"spec": export_model_spec(rnd, fam), "family": fam, "idx": i, "seed": seed})
+  for j in range(14 if tier == "quick" else 120):
+    rnd = random.Random(seed * 32452843 + j)
+    fam = ["fixed", "po2", "auto_po2"][j % 3]
+    out.append({"spec": export_model_spec(rnd, fam, focus="bn_fuse"), "family": fam, "idx": n + j, "seed": seed})
   return out
 
 
